@@ -50,6 +50,53 @@ def tori_deck(rng):
     return d
 
 
+def neardup_deck(rng):
+    """slabs cut by two equal spheres: many surfaces of one type whose parameters differ in one place only — among
+    them the pairs -1 / -2 (equal hashes in CPython), 0.0 / -0.0 (equal numbers) — and true duplicates under
+    different numbers.  Only equal definitions may be merged."""
+    d = D.Deck()
+    ax = rng.choice('xyz')
+    vals = sorted(rng.sample([-3.0, -2.0, -1.0, -0.5, 0.0, 1.0, 2.0], rng.randint(2, 5)))
+    if rng.random() < 0.7 and not (-1.0 in vals and -2.0 in vals):
+        vals = sorted(set(vals) | {-1.0, -2.0})
+    sid = 0
+    lower, upper = [], []          # surface number used as lower bound of slab i+1 / upper bound of slab i
+    for v in vals:
+        sid += 1
+        d.surfs.append(D.Surf(sid, 'p' + ax, [v]))
+        upper.append(sid)
+        if rng.random() < 0.4:
+            sid += 1
+            d.surfs.append(D.Surf(sid, 'p' + ax, [-0.0 if v == 0.0 and rng.random() < 0.5 else v]))   # a true duplicate
+        lower.append(sid)
+    k = 'xyz'.index(ax)
+    c1, c2 = [0.0, 0.0, 0.0], [0.0, 0.0, 0.0]
+    j = rng.choice([i for i in range(3) if i != k] + [k])
+    c1[j], c2[j] = rng.choice([(-1.0, -2.0), (-2.0, -1.0), (1.0, 2.0), (-1.0, 1.0)])
+    r = rng.choice([1.5, 2.5])
+    if rng.random() < 0.5:
+        d.surfs += [D.Surf(sid + 1, 's', c1 + [r]), D.Surf(sid + 2, 's', c2 + [r])]
+    else:
+        o = [i for i in range(3) if i != k]
+        mn = 'c/' + ax
+        d.surfs += [D.Surf(sid + 1, mn, [c1[o[0]] or -1.0, c1[o[1]], r]), D.Surf(sid + 2, mn, [c2[o[0]] or -2.0, c2[o[1]], r])]
+    a, b = sid + 1, sid + 2
+    shapes = [('s', -a), ('i', ('s', a), ('s', -b)), ('i', ('s', a), ('s', b))]
+    cid = 0
+    for i in range(len(vals) + 1):
+        for sh in shapes:
+            e = sh
+            if i > 0:
+                e = ('i', ('s', lower[i - 1]), e)
+            if i < len(vals):
+                e = ('i', e, ('s', -upper[i]))
+            cid += 1
+            mat = rng.choice([0, 1, 2])
+            d.cells.append(D.Cell(cid, e, mat=mat, rho=None if mat == 0 else rng.choice(['-1.0', '-2.0'])))
+    d.mats = {1: [('13027', '1.0')], 2: [('26056', '-0.9'), ('6012', '-0.1')]}
+    return d
+
+
 def run_case(stream, seed, ctx, params):
     rng = random.Random(seed)
     if stream == 'options':
@@ -60,9 +107,11 @@ def run_case(stream, seed, ctx, params):
         elif m < 0.8:
             d = U.build_universe_deck(rng, depth=2, macro_p=0.0, tr_p=0.0, fill_tr_p=0.3, trcl_p=0.3, lattice_p=0.6,
                                       lat_tr_p=0.2, lat_trcl_p=0.3)
-        else:
+        elif m < 0.9:
             from .c08 import coincident_deck
             d = coincident_deck(rng)
+        else:
+            d = neardup_deck(rng)
         sets = rng.sample(all_option_sets(), 3)
         out = None
         for flags in sets:
@@ -83,7 +132,9 @@ def run_case(stream, seed, ctx, params):
         out['evaluations'] = len(sets)
         return out
     else:
-        d = tori_deck(rng) if rng.random() < 0.5 else __import__('harness.props.c08', fromlist=['x']).coincident_deck(rng)
+        m = rng.random()
+        d = (tori_deck(rng) if m < 0.35 else neardup_deck(rng) if m < 0.7
+             else __import__('harness.props.c08', fromlist=['x']).coincident_deck(rng))
         args = [] if rng.random() < 0.75 else ['--skip-deduplication']
         return run_deck(ctx, stream, d, args, rng, npts=200, check_model=True)
 
